@@ -6,6 +6,7 @@
 use std::io::{self, BufRead, Write};
 use std::panic::{catch_unwind, AssertUnwindSafe};
 
+mod orswot;
 mod ts;
 
 pub trait Domain {
@@ -16,6 +17,7 @@ pub trait Domain {
 fn new_domain(name: &str, params: &[&str]) -> Option<Box<dyn Domain>> {
     match name {
         "ts" => Some(Box::new(ts::TsDomain::new(params))),
+        "orswot" => Some(Box::new(orswot::OrswotDomain::new(params))),
         _ => None,
     }
 }
